@@ -125,6 +125,26 @@ def check(model, tier):
             run.ok("R01.2", "execute:Transfer:source-engine-executes")
         else:
             run.fail("R01.2", "execute:Transfer:source-engine-executes", f"the Transfer arm evaluates the source tree with `{src(v)[:60]}`: it must be <target>.engine.execute(<target>) - the source engine's function registry and custom operations define what the tree means", fi=ex, node=p.node)
+    # ... and which sources it accepts: every iteration engine, not only those of the destination's own class
+    seen_t = 0
+    for i, p in tarms:
+        for fct in path_facts(p):
+            if fct.kind == "ISINSTANCE" and fct.args[0].endswith(".engine"):
+                seen_t += 1
+                inst = "execute:Transfer:any-iteration-engine"
+                if fct.args[1] == ex.cls.name:
+                    run.ok("R01.2", inst)
+                else:
+                    run.fail(
+                        "R01.2",
+                        inst,
+                        f"the Transfer arm accepts a source engine by `isinstance({fct.args[0]}, {fct.args[1]})`: the documented case is a transfer from any other iteration engine "
+                        f"(`isinstance(..., {ex.cls.name})`, subclasses included); a test against the destination's own class refuses a plain engine feeding a subclass",
+                        fi=ex,
+                        node=fct.node,
+                    )
+    if tarms and seen_t == 0:
+        run.fail("R01.2", "execute:Transfer:any-iteration-engine", "the Transfer arm no longer tests that the source engine is an iteration engine before executing the source tree itself", fi=ex)
     # sort terms: expression and direction of every term
     for i, p in _arm(ctx, ex, "Sort"):
         sl = backward_slice(p, [p.value], start=i, control=True)
@@ -456,6 +476,12 @@ def check(model, tier):
     _commute.r04_1_matrix(ctx)
     _commute.r04_2_failure_hands_back(ctx)
     _commute.r04_4_set_formulas(ctx)
+    from ..rules import dispatch as _dispatch1
+    from ..rules import rowseval as _rowseval1
+
+    _dispatch1.r_only_deduplication_merges_rows(ctx, "R01.20")
+    _rowseval1.r_sliced_is_window(ctx, "R01.21")
+    _dispatch1.r_execute_direct_operands(ctx, "R01.22")
     from ..rules.foundation import run_foundation
 
     run_foundation(ctx, "01")
